@@ -500,7 +500,7 @@ impl Prop for C08 {
     }
 
     fn rule(&self) -> String {
-        "Cases: (a) stateful histories of depth-limited searches (limit 1-5) sharing one table while the game navigates: same position again, sibling, transposition by out-and-back moves of both sides, child, parent - so a deeper exact root entry often pre-exists; in-process and (1 in 5) through the real binary. Oracle: no `info depth` above the limit (decisive, no timeout involved), no panic; a 30 s watchdog without that symptom is only counted as inconclusive. (b) generated tiny positions (kings + 0-4 mutually blocked pawn pairs + 0-1 minor piece) and the curated cages searched WITHOUT limit for 0.3-1.5 s in-process (a watchdog thread plays `stop`) or through the binary (`go infinite`, `isready`, `stop`, `quit`): no panic, `info depth` strictly increasing and <= 255, the search returns within 2 s of the stop with a legal move, the binary answers readyok while searching, does not flood, exits 0; then the same positions with fixed limits 33, 34, 64, 128, 255 (same code path, independent of machine speed); three bare-king positions are searched to the depth ceiling and then again at the end of a 120-320-ply game record, where the ceiling lies below the cached depth (`go depth 250`, `go infinite`, `go depth 3` must end with a legal move); `info depth 0` is a wrapped counter. A search that does not return after the stop hangs its shard: the parent reports that case as the violation. evaluations = searches judged. Non-trivial: (a) the limit is below a depth this position was searched to before in the same table; (b) an iteration deeper than 32 was reached; distinct by script / position.".into()
+        "Cases: (a) stateful histories of depth-limited searches (limit 1-5) sharing one table while the game navigates: same position again, sibling, transposition by out-and-back moves of both sides, child, parent - so a deeper exact root entry often pre-exists; in-process and (1 in 5) through the real binary. Oracle: no `info depth` above the limit (decisive, no timeout involved), no panic; a 30 s watchdog without that symptom is only counted as inconclusive. (b) generated tiny positions (kings + 0-4 mutually blocked pawn pairs + 0-1 minor piece) and the curated cages searched WITHOUT limit for 0.3-1.5 s in-process (a watchdog thread plays `stop`) or through the binary (`go infinite`, `isready`, `stop`, `quit`): no panic, `info depth` strictly increasing and <= 255, the search returns within 2 s of the stop with a legal move, the binary answers readyok while searching, does not flood, exits 0; then the same positions with fixed limits 33, 34, 64, 128, 255 (same code path, independent of machine speed); three bare-king positions are searched to the depth ceiling and then again at the end of a 120-320-ply game record, where the ceiling lies below the cached depth (`go depth 250`, `go infinite`, `go depth 3` must end with a legal move; a depth-limited one that has not answered after 8 s while the process consumes no CPU time - measured from /proc over 1.5 s - is not searching any more but waiting to be stopped, which is the violation `never running on until stopped` even when the limit lies above the engine's depth ceiling); `info depth 0` is a wrapped counter. A search that does not return after the stop hangs its shard: the parent reports that case as the violation. evaluations = searches judged. Non-trivial: (a) the limit is below a depth this position was searched to before in the same table; (b) an iteration deeper than 32 was reached; distinct by script / position.".into()
     }
 
     fn assumptions(&self) -> Vec<String> {
@@ -578,7 +578,7 @@ impl Prop for C08 {
 
     fn check(&self, ctx: &Ctx, case: &TermCase, ev: &mut Ev) -> Result<(), Fail> {
         // symptoms that depend on the clock are re-checked from a fresh process; the others are decisive
-        const TIMING: &[&str] = &["stop-ignored", "engine-unresponsive-during-unlimited-search", "engine-does-not-exit-cleanly"];
+        const TIMING: &[&str] = &["depth-limited-search-waits-to-be-stopped", "stop-ignored", "engine-unresponsive-during-unlimited-search", "engine-does-not-exit-cleanly"];
         self.check_inner(ctx, case, ev).map_err(|f| if TIMING.contains(&f.signature.as_str()) { f } else { f.decisive() })
     }
 }
@@ -635,6 +635,13 @@ impl C08 {
                     let lines = match got {
                         Some(l) => l,
                         None => {
+                            // not answered within 8 s: still deepening (allowed - slow), or sitting there with the limit
+                            // or the depth ceiling reached and waiting to be stopped (what the statement rules out)?
+                            if limit.is_some() && s.idle_for(1_500) == Some(true) {
+                                let tail = s.transcript_tail(4);
+                                s.kill();
+                                return Err(Fail::new("depth-limited-search-waits-to-be-stopped", format!("{} : `{}` has not answered after 9.5 s and the engine is consuming no CPU time: it is not searching any more, yet it does not announce its move ({})", what, go, tail)));
+                            }
                             s.send("stop");
                             match s.read_until(|l| l.starts_with("bestmove"), 5_000) {
                                 Some(l) => {
